@@ -350,6 +350,10 @@ def run(ctx):
             ctx.require(on_unweighted and not others, "R-C13-12", "unit-weights|%d" % n12, "set_all_edge_weights(1.0) runs exactly on the `weighted == false` outcome",
                         "the replacement of the weights by 1 in convert_graph %s%s: an unweighted run on a graph whose edges carry weights keeps those weights, so degrees and neighbour weights are weighted while m counts edges -- the gain is no longer the modularity change and modularity can decrease between levels" % ("is not on the `weighted == false` outcome" if not on_unweighted else "also depends on ", "" if not others else ", ".join(others)), loc_str(t12.span))
     ctx.counters["unit_weight_normalisations"] = n12
+    # ------------------------------------------------------------------ R-C13-13 (shared with C20)
+    from props.c20 import working_graph_single_edge
+
+    working_graph_single_edge(ctx, prog, flows, "R-C13-13")
     # ------------------------------------------------------------------ R-C13-11
     # the neighbour-community weights are sums over ALL neighbours of the node; the only neighbour that is skipped is
     # the node itself (its self-loop).  Skipping is `continue`: a loop over the neighbours that can be LEFT before the
